@@ -66,7 +66,7 @@ class LLGo:
                      cwd=REPO, env=tc_env(self.cache), timeout=1500)
         return rc, out, outp
 
-    def build(self, progdir, out, opt="-O0", extra_args=(), env=None, timeout=900):
+    def build(self, progdir, out, opt="-O0", extra_args=(), env=None, timeout=2400):
         cmd = [self.llgo, "build"]
         if opt:
             cmd.append(opt)
